@@ -462,7 +462,7 @@ _POW = None
 def pow_uf():
     global _POW
     if _POW is None:
-        _POW = z3.Function("pow", z3.RealSort(), z3.RealSort(), z3.RealSort())
+        _POW = z3.Function("uf_pow", z3.RealSort(), z3.RealSort(), z3.RealSort())
     return _POW
 
 
